@@ -100,6 +100,22 @@ def inject(scratch_repo, modules, known_ids, intree_macros=False):
         if fn.endswith(".txt"):
             import shutil
             shutil.copy(os.path.join(C.VERIF, "harness", fn), os.path.join(src, fn))
+    # generated inputs: a document with every element of the grammar (from the DSL of the tree under check) and a
+    # module that serialises every data field of a model (from the struct definitions of specification.rs)
+    from . import dslgen
+    try:
+        doc, dinfo = dslgen.every_element_document(dslgen.dsl_body(open(os.path.join(src, "specification_orig.rs")).read()))
+        fpmod, finfo = dslgen.fingerprint_module(open(os.path.join(src, "specification.rs")).read())
+        pre.append("a2lfile/src/verif_every_element.txt (generated from the DSL: %d of %d grammar elements, %d lines), a2lfile/src/verif_fp.rs (generated: %d structs)" % (
+            dinfo["elements_in_document"], dinfo["elements_in_grammar"], dinfo["lines"], finfo["structs"]))
+    except Exception as e:      # a tree whose DSL / struct definitions the generators do not understand: harnesses that need them become vacuous (must_cover)
+        doc = "ASAP2_VERSION 1 71\n/begin PROJECT p \"\"\n/end PROJECT\n"
+        fpmod = "use crate::specification::*;\npub(crate) fn fingerprint(_file: &A2lFile) -> Vec<u8> { Vec::new() }\npub(crate) const VERIF_FP_STUB: bool = true;\n"
+        pre.append("dslgen failed (%s): stub every-element document and fingerprint module" % str(e)[:200])
+    if "VERIF_FP_STUB" not in fpmod:
+        fpmod += "pub(crate) const VERIF_FP_STUB: bool = false;\n"
+    open(os.path.join(src, "verif_every_element.txt"), "w").write(doc)
+    open(os.path.join(src, "verif_fp.rs"), "w").write(fpmod)
     rt = open(os.path.join(C.VERIF, "harness", "verif_rt.rs")).read()
     rt += "\nstatic VRT_KNOWN: &[&str] = &[%s];\n" % ", ".join('"%s"' % k for k in known_ids)
     rt += "pub(crate) fn vrt_dispatch(name: &str) -> bool {\n    match name {\n"
@@ -109,7 +125,7 @@ def inject(scratch_repo, modules, known_ids, intree_macros=False):
     with open(os.path.join(src, "verif_rt.rs"), "w") as f:
         f.write(rt)
     with open(os.path.join(src, "lib.rs"), "a") as f:
-        f.write("\n#[cfg(verif)]\n#[allow(unused, clippy::all)]\npub(crate) mod verif_rt;\n")
+        f.write("\n#[cfg(verif)]\n#[allow(unused, clippy::all)]\npub(crate) mod verif_rt;\n#[cfg(verif)]\n#[allow(unused, clippy::all)]\npub(crate) mod verif_fp;\n")
     return pre + ["a2lfile/src/%s.rs += /verif/harness/%s.rs (cfg(verif))" % (m.replace("__", "/"), m) for m in modules] + [
         "a2lfile/src/verif_rt.rs (new, cfg(verif))"]
 
